@@ -44,6 +44,17 @@ func init() {
 			// the timer callback deletes the same key under the lock
 			okCb := false
 			probeMsg := false
+			params := fn.Decl.Type.Params.List
+			seqObj := p.Info.Defs[params[0].Names[0]]
+			toObj := p.Info.Defs[params[len(params)-1].Names[0]]
+			sendsIncomplete := func(x *gea.Exec) bool {
+				for _, e := range x.Effects {
+					if e.Class == "SEND" && strings.Contains(e.Detail["val"], "ackMessage{false") {
+						return true
+					}
+				}
+				return false
+			}
 			inspectFn(fn, func(nd ast.Node) bool {
 				call, ok := nd.(*ast.CallExpr)
 				if !ok {
@@ -52,22 +63,53 @@ func init() {
 				if f := p.Callee(call); f == nil || core.FuncFullName(f) != "time.AfterFunc" || len(call.Args) != 2 {
 					return true
 				}
-				if p.Canon(call.Args[0]) != p.Canon(fn.Decl.Type.Params.List[len(fn.Decl.Type.Params.List)-1].Names[0]) {
+				// armed with the timeout this function was given (directly, or handed on to the
+				// helper that now creates the timer)
+				if !c.flowsFrom(call.Args[0], toObj, fn, 0) {
 					return true
 				}
 				fl, ok := ast.Unparen(call.Args[1]).(*ast.FuncLit)
 				if !ok {
 					return true
 				}
-				xl := c.Explore(name+"$reaper", fl.Type, fl.Body, &flowSpec{c: c, recv: p.Info.Defs[fn.Decl.Recv.List[0].Names[0]], quiet: map[string]bool{}})
+				recv := p.Info.Defs[fn.Decl.Recv.List[0].Names[0]]
+				if enc := p.EnclosingDecl(fl); enc != nil && enc != fn && enc.Decl.Recv != nil && len(enc.Decl.Recv.List[0].Names) > 0 {
+					recv = p.Info.Defs[enc.Decl.Recv.List[0].Names[0]]
+				}
+				xl := c.Explore(name+"$reaper", fl.Type, fl.Body, &flowSpec{c: c, recv: recv, quiet: map[string]bool{}})
 				for _, e := range xl.Effects {
-					if e.Class == "MAPDEL:Memberlist.ackHandlers" && strings.HasPrefix(e.Detail["key"], "seqNo") && e.Seen["LOCK:Lock:m.ackLock"] == 1 && e.Seen["LOCK:Unlock:m.ackLock"] == 0 {
-						okCb = true
-					}
-					if e.Class == "SEND" && strings.Contains(e.Detail["val"], "ackMessage{false") {
-						probeMsg = true
+					if e.Class == "MAPDEL:Memberlist.ackHandlers" && e.Seen["LOCK:Lock:m.ackLock"] == 1 && e.Seen["LOCK:Unlock:m.ackLock"] == 0 {
+						// the key deleted is the sequence number this function was given
+						ast.Inspect(fl.Body, func(m ast.Node) bool {
+							if dc, isC := m.(*ast.CallExpr); isC && dc.Pos() == e.Pos && len(dc.Args) == 2 && c.flowsFrom(dc.Args[1], seqObj, fn, 0) {
+								okCb = true
+							}
+							return true
+						})
 					}
 				}
+				if sendsIncomplete(xl) {
+					probeMsg = true
+				}
+				// a callback handed to the helper that now owns the timer runs as part of the reaper
+				ast.Inspect(fl.Body, func(m ast.Node) bool {
+					cc, isC := m.(*ast.CallExpr)
+					if !isC {
+						return true
+					}
+					id, isId := ast.Unparen(cc.Fun).(*ast.Ident)
+					if !isId {
+						return true
+					}
+					for _, a := range c.argsReaching(p.Info.Uses[id], fn) {
+						if al, isL := ast.Unparen(a).(*ast.FuncLit); isL {
+							if sendsIncomplete(c.Explore(name+"$reaper$cb", al.Type, al.Body, &flowSpec{c: c, recv: p.Info.Defs[fn.Decl.Recv.List[0].Names[0]], quiet: map[string]bool{}})) {
+								probeMsg = true
+							}
+						}
+					}
+					return true
+				})
 				return true
 			})
 			c.Check("C19/cleanup/"+name, "every registration is paired with a timer, armed with the given timeout, whose callback deletes the same sequence number under the lock (every pending-probe record is discarded by its deadline)", fn.Decl.Pos(), okCb, "no AfterFunc(timeout, ...) deleting ackHandlers[seqNo] under the lock")
